@@ -5,7 +5,10 @@ identity on sizes over Q and yields the padding tolerance.  What is sampled: the
 graphs of the families the property names under the option settings it names, plus the shipped hola_* test inputs;
 the extracted, verified `hola_ok` decides every run.  A source change in /repo can therefore only show through the
 checker rejecting a real output (a concrete graph is then the replay); a broken proof can only come from an edit
-of the Coq files."""
+of the Coq files.
+Families added with DESIGN 9.15 (seeded C14-5): `whole_tree` - pure trees (caterpillars, stars, binary trees, ...) under every
+defaultTreeGrowthDir with non-square node dimension distributions (aspect ratio up to 12) and the options the whole-tree branch reads;
+`core_opts` - graphs with a core under the documented HolaOpts the main stream never sets (checks/c14gen.py)."""
 import os, re, json, collections, tempfile, time
 from fractions import Fraction
 from concurrent.futures import ThreadPoolExecutor
@@ -250,11 +253,18 @@ RATE_LIMITS = {     # calibration: VERIF_SEED 1..12 quick, 1..3 thorough on the 
 # the whole_tree family (non-square nodes up to aspect 12, every growth direction) has rates of its own: a tall node in a rank of a N/S tree
 # or a wide one in an E/W tree is a rank collision by construction.  Calibration as above (VERIF_SEED 1..12 quick, 1..3 thorough).
 RATE_LIMITS_WTREE = {
-    'tree_centre_child_alignment': ('wtree', {'quick': 0.40, 'thorough': 0.40}, 3),
-    'tree_rank_collision': ('wtree', {'quick': 0.50, 'thorough': 0.50}, 3),
+    'tree_centre_child_alignment': ('wtree', {'quick': 0.30, 'thorough': 0.30}, 3),        # 0.179 (seeds 1..12 quick): 1.5 x + slack, as for the main stream
+    'tree_rank_collision': ('wtree', {'quick': 0.42, 'thorough': 0.42}, 3),                # 0.263
 }
 GROWTH = {0: (1, 1.0), 1: (2, 1.0), 2: (1, -1.0), 3: (2, -1.0)}     # HolaOpts::defaultTreeGrowthDir as the harness numbers it -> (index into an A N tuple, sign)
 GENERIC_ASSERT_SITES = {'exception:assert:faces.cpp:u_!=_nullptr'}     # sites named in the text of the catch-all line `exception:assert`
+# exception fingerprints that are known only under a predicate on the input (anything else with that fingerprint is a VIOLATION)
+EXC_PREDICATES = {
+    # hola.cpp:421 core->padAllNodes(-nodePaddingLayer1) also shrinks the Chains' aesthetic-bend nodes (size IEL/8, never padded) by
+    # nodePaddingScalar*IEL/4: non-positive size from nodePaddingScalar >= 0.5 on, and only with the chain configuration
+    'exception:assert:orthogonal.cpp:begin_<_finish': lambda case: (case.get('opts', {}).get('useACAforLinks', 1) == 0 and
+                                                                      float(case.get('opts', {}).get('nodePaddingScalar', 0.25)) >= 0.5),
+}
 CLUSTER_DESTRESS = ('P_nbr_destress', 'P_near_alignments')          # P->destress(colaOpts) with node clusters, hola.cpp:289 / :301
 
 
@@ -600,6 +610,32 @@ def classify_core(case, r, info):
             continue
         if s in ov_nodes or tt in ov_nodes:
             continue        # a connector of a node that overlaps another node (classified above): no clean route exists
+        if len(rt) == 4 and diagonal_segments(rt) and set(be['fails']) <= set('pt'):
+            # :diagonal_fallback - libavoid's straight 2-point fallback: it found no orthogonal route because the box of an end node, inflated by
+            # the padding still on the nodes at the final routing (3/4 of the node padding, hola.cpp:418-430), collides with the box of another node,
+            # and the trace establishes the registered mechanism for that pair (first overlap of the padded boxes in P at a destress with node
+            # clusters, kept to the end, one a cluster member and the other outside that cluster).  The unpadded boxes need not overlap.
+            def final_padded_overlap(a, b):
+                ba, bb, g = fbox(A[a]), fbox(A[b]), 1.5 * pad
+                return min(ba[1], bb[1]) - max(ba[0], bb[0]) + g > 1e-9 and min(ba[3], bb[3]) - max(ba[2], bb[2]) + g > 1e-9
+            hit, whys = None, []
+            for e in (s, tt):
+                for q in sorted(A):
+                    if q in (s, tt) or not final_padded_overlap(q, e):
+                        continue
+                    why = cluster_overlap(q, e)
+                    if why is None:
+                        hit = (q, e)
+                        break
+                    whys.append(why)
+                if hit:
+                    break
+            if hit is None:
+                return None, ('route %d-%d is libavoid\'s straight 2-point fallback but no node whose padded box collides with an end node got there by a '
+                              'destress with node clusters (%s)' % (s, tt, '; '.join(whys[:3]) or 'no padded box collides with an end node'))
+            info.setdefault('diagonal_fallback_pairs', []).append({'edge': [s, tt], 'collides': list(hit)})
+            fps.add('padded_gap_lost')
+            continue
         if be['fails'] != 't' or not pier:
             return None, 'route %d-%d fails %s without an aesthetic bend and without overlapping end node' % (s, tt, be['fails'])
         for (_, q) in pier:
@@ -722,6 +758,9 @@ def run(tier):
     trng = C.SplitMix64(res.seed ^ 0xC14735)
     n_wtree_cases = 224 if tier == 'quick' else 896
     cases += [G.gen_tree_case(trng.fork(), k, 24 if tier == 'quick' else 40) for k in range(n_wtree_cases)]
+    # graphs with a core under the documented options the main stream never sets (own stream)
+    orng = C.SplitMix64(res.seed ^ 0xC140975)
+    cases += [G.gen_core_opts_case(orng.fork(), k, 30 if tier == 'quick' else 50) for k in range(120 if tier == 'quick' else 480)]
     tmpdir = tempfile.mkdtemp(prefix='c14_', dir=os.path.join(C.BUILD))
     t1 = time.time()
     try:
@@ -762,6 +801,11 @@ def run(tier):
             fp = exc_fingerprint(r['exc'])
             eobj = {'what': 'doHOLA threw instead of returning a drawing: ' + r['exc'], 'harness_input': G.case_text(case),
                     'family': case['family'], 'options': o}
+            if fp in EXC_PREDICATES and not EXC_PREDICATES[fp](case):
+                eobj['what'] += '  [the input does not satisfy the predicate under which %s is a known finding]' % fp
+                res.violation(eobj)
+                new_viol += 1
+                continue
             k = res.known_fingerprint(fp)
             exact = any(x['property'] == PID and x['fingerprint'] == fp for x in res.known)
             if k is not None and not exact and fp not in GENERIC_ASSERT_SITES:
@@ -870,7 +914,9 @@ def run(tier):
         'rule': 'cases = corpus/c14_cases.json + the inputs of the 11 shipped hola_* tests (default options) + random connected simple graphs '
                 '(families tree, cycle, core with hanging trees, hubs, random; <= %d nodes; three node-size regimes; random distinct start '
                 'positions; options: useACAforLinks, do_near_align, preferredAspectRatio each random, preferConvexTrees / putUlcAtOrigin / '
-                'tree growth directions sometimes) + a degenerate-start stream (coincident / collinear / gridded start positions); '
+                'tree growth directions sometimes) + a degenerate-start stream (coincident / collinear / gridded start positions) + the whole_tree family '
+                '(coverage.whole_tree_family) + the core_opts family (core_trees / hubs / cycle graphs with peeledTreeRouting, orthoHubAvoidFlatTriangles, treePlacement_favour*, '
+                'expansion_*, align_reps, nearAlignScalar_*, routingScalar_*, routingAbs_nudgingDistance, nodePaddingScalar set at random); '
                 'distinct_nontrivial = distinct (node count, edge set, options) among the runs that returned a drawing' % maxn,
         'samples': samples,
         'traces_validated_against_impl': n_ok,
@@ -963,6 +1009,12 @@ META = {
                   'in the replay file under diagnosis.not_a_known_finding_because); as a backstop a fingerprint that fires more than 3x as '
                   'often as on the unchanged tree (coverage.known_finding_rates) is a VIOLATION as well. A source change is visible only through the sampled runs; a broken proof can only come '
                   'from an edit of the Coq files and is then reported with no failing input. Multi-edges, self-loops and disconnected graphs '
-                  'are outside the generator domain, as in the property.',
+                  'are outside the generator domain, as in the property. Options: every field of HolaOpts (opts.h) is set by some family - the main stream sets useACAforLinks, '
+                  'do_near_align, preferredAspectRatio, preferConvexTrees, putUlcAtOrigin, default/preferredTreeGrowthDir; whole_tree (pure trees, growth direction E/S/W/N in turn, node '
+                  'aspect ratio up to 12: uniform tall / uniform wide / tall / wide / mixed / square / one big) adds wholeTreeRouting, treeLayoutScalar_nodeSep/_rankSep, nodePaddingScalar, '
+                  'routingAbs_nudgingDistance; core_opts adds peeledTreeRouting, orthoHubAvoidFlatTriangles, treePlacement_favour*, expansion_*, align_reps, nearAlignScalar_*, routingScalar_*. '
+                  'The tree classifiers read the rank pitch as treeLayoutScalar_rankSep*IEL, absorb NOTHING when two nodes of one rank have overlapping padded boxes (seeded C14-5), and '
+                  'tree_rank_collision has the variant :channel_blocked (a third node of the two ranks closes the channel of a diagonal-fallback edge); whole_tree has known-finding rate limits of its own. '
+                  'exception:assert:orthogonal.cpp:begin_<_finish is known only with useACAforLinks=0 and nodePaddingScalar>=0.5 (EXC_PREDICATES).',
     'technique': 'Coq soundness+completeness proof of an output checker (verified oracle) + proved padding arithmetic; implementation sampled by running doHOLA',
 }
